@@ -110,6 +110,24 @@ def writeV2 (crc : Bytes → Nat) (attributes now : Int) (recs : List PRec) : Op
     let batchLength := totalLength - 12
     some (i64 0 ++ (i32 (batchLength : Int) ++ (i32 (-1) ++ (i8 2 ++ (u32 (crc crcRegion) ++ crcRegion)))))
 
+/-- `writeToVersion2` with a compressor (`rs.Attributes.Compression() != 0` and the codec is installed): the record
+loop writes through `compressor`, `compressor.Close()`, then the same back-patching; the CRC covers attributes..end
+INCLUDING the compressed bytes.  `comp` = what the compressor emitted for the concatenated records. -/
+def writeV2C (crc : Bytes → Nat) (comp : Bytes → Bytes) (attributes now : Int) (recs : List PRec) : Option Bytes :=
+  match recs with
+  | [] => none
+  | r0 :: _ =>
+    let firstTimestamp := effTime now r0
+    let maxTimestamp := maxTime now 0 recs
+    let numRecords := recs.length
+    let lastOffsetDelta : Int := (numRecords : Int) - 1
+    let records := comp (recordsV2 now firstTimestamp 0 recs)
+    let crcRegion := i16 attributes ++ (i32 lastOffsetDelta ++ (i64 firstTimestamp ++ (i64 maxTimestamp ++
+      (i64 (-1) ++ (i16 (-1) ++ (i32 (-1) ++ (i32 (numRecords : Int) ++ records)))))))
+    let totalLength := 21 + crcRegion.length
+    let batchLength := totalLength - 12
+    some (i64 0 ++ (i32 (batchLength : Int) ++ (i32 (-1) ++ (i8 2 ++ (u32 (crc crcRegion) ++ crcRegion)))))
+
 /-! ### protocol/record_v1.go writeToVersion1 (uncompressed) -/
 
 def writeNullBytes : Option Bytes → Bytes
@@ -125,6 +143,13 @@ def messageV1 (crc : Bytes → Nat) (attributes now : Int) (i : Nat) (r : PRec) 
 def writeV1 (crc : Bytes → Nat) (attributes now : Int) : Nat → List PRec → Bytes
   | _, [] => []
   | i, r :: rs => messageV1 crc attributes now i r ++ writeV1 crc attributes now (i + 1) rs
+
+/-- `writeToVersion1` with a compressor: the uncompressed set (attributes with the codec bits erased: `&^ 7`) is
+rendered, compressed, the buffer truncated, and ONE wrapper message written: offset `int64(0)`, the original
+attributes, zero `Record.Time` → `currentTimestamp`, nil key, value = the compressed bytes. -/
+def writeV1C (crc : Bytes → Nat) (comp : Bytes → Bytes) (attributes now : Int) (recs : List PRec) : Bytes :=
+  let inner := writeV1 crc (attributes - attributes % 8) now 0 recs
+  messageV1 crc attributes now 0 ⟨0, none, some (comp inner), []⟩
 
 /-! ### Conn path: write.go / recordbatch.go -/
 
@@ -196,6 +221,21 @@ def legacyBatchWith (delta : Int → Int → Int) (crc : Bytes → Nat) (recs : 
       (i64 (-1) ++ (i16 (-1) ++ (i32 (-1) ++ (i32 (count : Int) ++ legacyRecordsWith delta base 0 recs)))))))
     i64 0 ++ (i32 ((size : Int) - 12) ++ (i32 (-1) ++ (i8 2 ++ (u32 (crc crcRegion) ++ crcRegion))))
 
+/-- `compressRecordBatch` + `(*recordBatch).writeTo` with `r.compressed != nil`: every record goes through the
+compressor (`writeRecord(0, msgs[0].Time, i, msg)`), `size = recordBatchHeaderSize + compressed.Len()`,
+attributes = the codec's code -/
+def legacyBatchC (crc : Bytes → Nat) (comp : Bytes → Bytes) (code : Int) (recs : List PRec) : Bytes :=
+  match recs with
+  | [] => []
+  | r0 :: _ =>
+    let base := r0.time
+    let compressed := comp (legacyRecordsWith tsDelta base 0 recs)
+    let size := 61 + compressed.length
+    let count := recs.length
+    let crcRegion := i16 code ++ (i32 ((count : Int) - 1) ++ (i64 (timestampOf base) ++ (i64 (timestampOf (lastTime base recs)) ++
+      (i64 (-1) ++ (i16 (-1) ++ (i32 (-1) ++ (i32 (count : Int) ++ compressed)))))))
+    i64 0 ++ (i32 ((size : Int) - 12) ++ (i32 (-1) ++ (i8 2 ++ (u32 (crc crcRegion) ++ crcRegion))))
+
 def legacyBatch := legacyBatchWith tsDelta
 def legacyBatchOld := legacyBatchWith tsDeltaOld
 
@@ -204,5 +244,22 @@ def legacyMessage (crc : Bytes → Nat) (offset attributes : Int) (r : PRec) : B
   let body := i8 1 ++ (i8 attributes ++ (i64 (timestampOf r.time) ++ (writeNullBytes r.key ++ writeNullBytes r.value)))
   let size := 4 + 1 + 1 + 8 + (4 + Spec.RB.optLen r.key) + (4 + Spec.RB.optLen r.value)   -- `messageSize`
   i64 offset ++ (i32 (size : Int) ++ (u32 (crc body) ++ body))
+
+/-- `writeProduceRequestV2` message set: uncompressed = one `writeMessage(msg.Offset, 0, …)` per message -/
+def legacyMessageSet (crc : Bytes → Nat) : List PRec → Bytes
+  | [] => []
+  | r :: rs => legacyMessage crc 0 0 r ++ legacyMessageSet crc rs
+
+/-- `compressMessageSet`: inner messages with offsets 0,1,… and attributes 0 -/
+def legacyInner (crc : Bytes → Nat) : Nat → List PRec → Bytes
+  | _, [] => []
+  | i, r :: rs => legacyMessage crc (i : Int) 0 r ++ legacyInner crc (i + 1) rs
+
+/-- the wrapper `Message{Value: compressed}`: offset 0, attributes = codec code, zero time (timestamp 0), nil key -/
+def legacyWrapper (crc : Bytes → Nat) (comp : Bytes → Bytes) (code : Int) (recs : List PRec) : Bytes :=
+  let v := comp (legacyInner crc 0 recs)
+  let body := i8 1 ++ (i8 code ++ (i64 0 ++ (writeNullBytes none ++ writeNullBytes (some v))))
+  let size := 4 + 1 + 1 + 8 + (4 + 0) + (4 + v.length)
+  i64 0 ++ (i32 (size : Int) ++ (u32 (crc body) ++ body))
 
 end KV.Model.RecordWriter
